@@ -197,9 +197,16 @@ def run(ctx):
         Lmax = int(cfg["HBS_LMS_MAX_ALLOWED_HSS_LEVELS"])
         if not ctx.open(cfg):
             continue
+        # the owned Signature object of a build holds at most MAX_HSS_SIGNATURE_LENGTH bytes (a build-time capacity, C14): a longer
+        # signature cannot be constructed there and `entry=sig` answers err before any verification; the slice-based entry points
+        # (`fn`, `vsig`) have no such capacity
+        consts = fields(ctx.both([Case("consts", "cfg/consts")], None)[0][1])
+        cap = int(consts.get("MAX_HSS_SIGNATURE_LENGTH", "65535"))
         for c, a, b in ctx.both([Case(c.line, "cfg/" + c.cls, c.meta) for c in small], proj_class):
             H, m, s_, p_ = c.meta["t"]
             exp = R.hss_verify(H, m, s_, p_, max_levels=Lmax, ls_of=lib_ls)
+            if c.line.endswith("entry=sig") and len(s_) > cap:
+                exp = False
             if a.startswith("panic"):
                 if exp:
                     ctx.fail("verify disagrees with the independent RFC 8554 verifier: a valid triple makes the verifier of the build %s panic" % json.dumps(cfg), [c.line], a, "ok")
